@@ -368,9 +368,11 @@ class CallMixin:
 
         def fin(vs):
             (l, tl), (n, tn) = vs
-            return self.as_list(l, tl, lambda ll, el: self.as_int(n, tn, lambda nv: k(
-                "({} {} ({}).toNat)".format(leanfn, ll, nv) if leanfn != "permsK" else "(permsK ({}).toNat {})".format(nv, ll),
-                TList(TList(el)))))
+            # a negative `r` is a ValueError of itertools ("r must be non-negative"): Py.itertoolsR
+            return self.as_list(l, tl, lambda ll, el: self.as_int(n, tn, lambda nv: self.bind(
+                "Py.itertoolsR {}".format(nv), None, lambda r, _t: k(
+                    "({} {} {})".format(leanfn, ll, r) if leanfn != "permsK" else "(permsK {} {})".format(r, ll),
+                    TList(TList(el))), "r")))
         return self.exprs(e.args, env, fin)
 
     def b_combinations(self, e, env, k):
